@@ -6,24 +6,7 @@ import (
 
 // TS 24.501 9.11.3.35, TS 24.008 10.5.3.5a
 func FullNetworkNameToNas(name string) (fullNetworkName nasType.FullNameForNetwork) {
-	asciiArray := []byte(name)
-	numOfSpareBits := 8 - ((7 * len(asciiArray)) % 8)
-
-	var buf []uint8
-	idx := uint8(7)
-	for i, char := range asciiArray {
-		if i == 0 {
-			buf = append(buf, char)
-		} else {
-			buf[i-1] = (buf[i-1] & nasType.GetBitMask(idx+1, 0)) + char<<idx
-			buf = append(buf, char>>(8-idx))
-			idx--
-			// if idx overflow, it will round to max(uint8) == 255 == ^uint8(0)
-			if idx == ^uint8(0) {
-				idx = 7
-			}
-		}
-	}
+	buf, numOfSpareBits := gsm7Pack([]byte(name))
 
 	fullNetworkName.SetLen(uint8(1 + len(buf)))
 	fullNetworkName.SetCodingScheme(0)
@@ -35,24 +18,7 @@ func FullNetworkNameToNas(name string) (fullNetworkName nasType.FullNameForNetwo
 }
 
 func ShortNetworkNameToNas(name string) (shortNetworkName nasType.ShortNameForNetwork) {
-	asciiArray := []byte(name)
-	numOfSpareBits := 8 - ((7 * len(asciiArray)) % 8)
-
-	var buf []uint8
-	idx := uint8(7)
-	for i, char := range asciiArray {
-		if i == 0 {
-			buf = append(buf, char)
-		} else {
-			buf[i-1] = (buf[i-1] & nasType.GetBitMask(idx+1, 0)) + char<<idx
-			buf = append(buf, char>>(8-idx))
-			idx--
-			// if idx overflow, it will round to max(uint8) == 255 == ^uint8(0)
-			if idx == ^uint8(0) {
-				idx = 7
-			}
-		}
-	}
+	buf, numOfSpareBits := gsm7Pack([]byte(name))
 
 	shortNetworkName.SetLen(uint8(1 + len(buf)))
 	shortNetworkName.SetCodingScheme(0)
@@ -60,5 +26,24 @@ func ShortNetworkNameToNas(name string) (shortNetworkName nasType.ShortNameForNe
 	shortNetworkName.SetExt(1)
 	shortNetworkName.SetNumberOfSpareBitsInLastOctet(uint8(numOfSpareBits))
 	shortNetworkName.SetTextString(buf)
+	return
+}
+
+// gsm7Pack packs 7-bit characters as in TS 23.038 6.1.2.1: character i occupies bits 7i..7i+6 of
+// the octet string, so every 8 characters take 7 octets. It returns the packed octets and the
+// number of unused bits in the last octet.
+func gsm7Pack(chars []byte) (buf []uint8, numOfSpareBits int) {
+	for i, char := range chars {
+		shift := uint(i % 8) // number of bits of this character that still fit the previous octet
+		if shift == 0 {
+			buf = append(buf, char&0x7f)
+			continue
+		}
+		buf[len(buf)-1] |= char << (8 - shift)
+		if shift < 7 {
+			buf = append(buf, (char&0x7f)>>shift)
+		}
+	}
+	numOfSpareBits = 8*len(buf) - 7*len(chars)
 	return
 }
